@@ -1,1 +1,659 @@
+(* C15 - proofs.  Part 1: the reactor's queue.  Part 2: the event loop of one
+   Spinner.run on an idle reactor ends with the earliest crashing action.
+   Part 3: one run.  Part 4: histories.  Part 5: the statement. *)
+From Coq Require Import Permutation.
 From TT Require Import Lib.Base Lib.Sort Model.Reactor Model.Spinner Gen.Spinnertabs Spec.C15 Corr.C15.
+
+(* ------------------------------------------------------------------ *)
+(* Part 1: queue facts                                                  *)
+(* ------------------------------------------------------------------ *)
+Section Queue.
+  Context {A : Type}.
+  Notation dcall := (dcall A).
+
+  Lemma min_time_le (q : list dcall) m c : min_time q = Some m -> In c q -> m <= dc_time c.
+  Proof.
+    revert m; induction q as [|x r IH]; intros m Hm Hin; [destruct Hin|].
+    simpl in Hm. destruct (min_time r) as [m'|] eqn:E; injection Hm as <-.
+    - destruct Hin as [->|Hin]; [apply Nat.le_min_l|].
+      etransitivity; [apply Nat.le_min_r|]. apply (IH m'); auto.
+    - destruct Hin as [->|Hin]; [lia|]. destruct r; [destruct Hin|discriminate].
+  Qed.
+
+  Lemma min_time_in (q : list dcall) m : min_time q = Some m -> exists c, In c q /\ dc_time c = m.
+  Proof.
+    revert m; induction q as [|x r IH]; intros m Hm; [discriminate|].
+    simpl in Hm. destruct (min_time r) as [m'|] eqn:E; injection Hm as <-.
+    - destruct (Nat.min_dec (dc_time x) m') as [H|H]; rewrite H.
+      + exists x; split; [left|]; reflexivity.
+      + destruct (IH m' eq_refl) as [c [Hc Ht]]. exists c; split; [right|]; assumption.
+    - exists x; split; [left|]; reflexivity.
+  Qed.
+
+  Lemma min_time_none (q : list dcall) : min_time q = None -> q = [].
+  Proof. destruct q; [reflexivity|discriminate]. Qed.
+
+  Lemma candidates_spec (q : list dcall) c :
+    In c (candidates q) -> In c q /\ forall c', In c' q -> dc_time c <= dc_time c'.
+  Proof.
+    unfold candidates. destruct (min_time q) as [m|] eqn:E; [|intros []].
+    intros H. apply filter_In in H as [Hin Ht]. apply Nat.eqb_eq in Ht. split; [exact Hin|].
+    intros c' Hc'. rewrite Ht. eapply min_time_le; eauto.
+  Qed.
+
+  Lemma candidates_nonempty (q : list dcall) : q <> [] -> candidates q <> [].
+  Proof.
+    intros Hq. unfold candidates. destruct (min_time q) as [m|] eqn:E.
+    - destruct (min_time_in q m E) as [c [Hc Ht]]. intro H.
+      assert (In c (filter (fun c => Nat.eqb (dc_time c) m) q)) as Hin.
+      { apply filter_In; split; [exact Hc|]. apply Nat.eqb_eq; exact Ht. }
+      rewrite H in Hin; destruct Hin.
+    - apply min_time_none in E. contradiction.
+  Qed.
+
+  Lemma choose_in orc (cands : list dcall) c orc' : choose orc cands = Some (c, orc') -> In c cands.
+  Proof.
+    unfold choose. destruct cands as [|x [|y r]]; [discriminate| |].
+    - intros H; injection H as <- _. left; reflexivity.
+    - destruct orc as [|k o]; intros H.
+      + injection H as <- _. left; reflexivity.
+      + assert (Hlt : k mod length (x :: y :: r) < length (x :: y :: r)).
+        { apply Nat.mod_upper_bound. cbn [length]. discriminate. }
+        revert H Hlt. generalize (k mod length (x :: y :: r)). intros n H Hlt.
+        assert (E : c = nth n (x :: y :: r) x) by congruence.
+        rewrite E. apply nth_In. exact Hlt.
+  Qed.
+
+  Lemma choose_some orc (cands : list dcall) : cands <> [] -> exists c orc', choose orc cands = Some (c, orc').
+  Proof.
+    destruct cands as [|x [|y r]]; [contradiction| |]; intros _; simpl.
+    - eauto.
+    - destruct orc; eauto.
+  Qed.
+
+  Lemma pop_next_spec (r : reactor A) c r' :
+    pop_next r = Some (c, r') ->
+    In c (queue r) /\ (forall c', In c' (queue r) -> dc_time c <= dc_time c')
+    /\ queue r' = remove_seq (dc_seq c) (queue r)
+    /\ running r' = running r /\ readers r' = readers r /\ hooks r' = hooks r
+    /\ really_stopped r' = really_stopped r /\ nextseq r' = nextseq r.
+  Proof.
+    unfold pop_next. destruct (choose (oracle r) (candidates (queue r))) as [[c0 o]|] eqn:E; [|discriminate].
+    intros H; injection H as <- <-. apply choose_in in E. apply candidates_spec in E as [H1 H2].
+    simpl. repeat split; auto.
+  Qed.
+
+  Lemma pop_next_some (r : reactor A) : queue r <> [] -> exists c r', pop_next r = Some (c, r').
+  Proof.
+    intros Hq. unfold pop_next.
+    destruct (choose_some (oracle r) (candidates (queue r)) (candidates_nonempty _ Hq)) as [c [o E]].
+    rewrite E. eauto.
+  Qed.
+
+  Lemma remove_seq_in s (q : list dcall) c : In c (remove_seq s q) -> In c q /\ dc_seq c <> s.
+  Proof.
+    unfold remove_seq. intros H. apply filter_In in H as [H1 H2]. split; [exact H1|].
+    apply negb_true_iff in H2. apply Nat.eqb_neq in H2. exact H2.
+  Qed.
+
+  Lemma remove_seq_keeps s (q : list dcall) c : In c q -> dc_seq c <> s -> In c (remove_seq s q).
+  Proof.
+    intros H1 H2. apply filter_In; split; [exact H1|]. apply negb_true_iff. apply Nat.eqb_neq. exact H2.
+  Qed.
+
+  Lemma remove_seq_cons s x (r : list dcall) :
+    remove_seq s (x :: r) = if negb (dc_seq x =? s) then x :: remove_seq s r else remove_seq s r.
+  Proof. reflexivity. Qed.
+
+  Lemma remove_seq_length s (q : list dcall) : length (remove_seq s q) <= length q.
+  Proof.
+    induction q as [|x r IH]; [simpl; lia|]. rewrite remove_seq_cons.
+    destruct (negb (dc_seq x =? s)); simpl; lia.
+  Qed.
+
+  Lemma remove_seq_length_lt (q : list dcall) c : In c q -> length (remove_seq (dc_seq c) q) < length q.
+  Proof.
+    induction q as [|x r IH]; [intros []|]. rewrite remove_seq_cons. intros [->|Hin].
+    - rewrite Nat.eqb_refl. cbn [negb]. pose proof (remove_seq_length (dc_seq c) r). simpl; lia.
+    - specialize (IH Hin). destruct (negb (dc_seq x =? dc_seq c)); simpl; lia.
+  Qed.
+
+  Lemma remove_seq_nodup s (q : list dcall) : NoDup (map dc_seq q) -> NoDup (map dc_seq (remove_seq s q)).
+  Proof.
+    induction q as [|x r IH]; simpl; [auto|]. intros H. inversion H as [|? ? Hn Hr]; subst.
+    destruct (negb (dc_seq x =? s)); simpl; [|auto]. constructor; [|auto].
+    intro Hin. apply Hn. apply in_map_iff in Hin as [y [Hy Hin]]. apply in_map_iff. exists y. split; [exact Hy|].
+    apply remove_seq_in in Hin as [Hin _]. exact Hin.
+  Qed.
+
+  (* with distinct handles, removing the call c removes exactly c *)
+  Lemma remove_seq_perm (q : list dcall) c :
+    NoDup (map dc_seq q) -> In c q -> Permutation q (c :: remove_seq (dc_seq c) q).
+  Proof.
+    induction q as [|x r IH]; [intros _ []|]. intros Hnd Hin. inversion Hnd as [|? ? Hn Hr]; subst. simpl.
+    destruct Hin as [->|Hin].
+    - rewrite Nat.eqb_refl. simpl. apply perm_skip.
+      assert (forall y, In y r -> dc_seq y <> dc_seq c) as Hne.
+      { intros y Hy E. apply Hn. rewrite <- E. apply in_map. exact Hy. }
+      clear -Hne. induction r as [|y r IH]; simpl; [reflexivity|].
+      destruct (Nat.eqb_spec (dc_seq y) (dc_seq c)) as [E|E]; simpl.
+      + exfalso. apply (Hne y); [left; reflexivity|exact E].
+      + apply perm_skip. apply IH. intros z Hz. apply Hne. right; exact Hz.
+    - destruct (Nat.eqb_spec (dc_seq x) (dc_seq c)) as [E|E]; simpl.
+      + exfalso. apply Hn. rewrite E. apply in_map. exact Hin.
+      + etransitivity; [apply perm_skip; apply IH; assumption|]. apply perm_swap.
+  Qed.
+End Queue.
+
+(* ------------------------------------------------------------------ *)
+(* Part 2: the event loop of one run                                    *)
+(* ------------------------------------------------------------------ *)
+Local Arguments remove_seq : simpl never.
+Definition is_timeout (a : action) : bool := match a with ATimeout => true | _ => false end.
+Definition crasher (a : action) : bool :=
+  match a with ATimeout | AFire _ | AStopReq => true | _ => false end.
+(* what run() reports when this action is the one that crashes the reactor *)
+Definition act_result (a : action) : res value exc :=
+  match a with
+  | ATimeout => Raised ETimeout
+  | AFire o => result_of o
+  | AStopReq => Raised ENoResult
+  | _ => Raised EOther
+  end.
+Definition qtoks (q : list (dcall action)) : list nat :=
+  filter not_timeout_tok (map (fun c => tok_of (dc_act c)) q).
+
+Local Arguments qtoks : simpl never.
+
+Lemma qtoks_perm q q' : Permutation q q' -> Permutation (qtoks q) (qtoks q').
+Proof.
+  intros H. unfold qtoks. induction H; simpl.
+  - reflexivity.
+  - destruct (not_timeout_tok _); [apply perm_skip|]; assumption.
+  - destruct (not_timeout_tok (tok_of (dc_act x))), (not_timeout_tok (tok_of (dc_act y)));
+      try reflexivity. apply perm_swap.
+  - etransitivity; eassumption.
+Qed.
+
+Lemma qtoks_cons c q :
+  qtoks (c :: q) = if not_timeout_tok (tok_of (dc_act c)) then tok_of (dc_act c) :: qtoks q else qtoks q.
+Proof. reflexivity. Qed.
+
+Lemma qtoks_pop_zero q c q' :
+  Permutation q (c :: q') -> not_timeout_tok (tok_of (dc_act c)) = false -> Permutation (qtoks q') (qtoks q).
+Proof. intros H E. apply qtoks_perm in H. rewrite qtoks_cons, E in H. symmetry; exact H. Qed.
+
+Lemma qtoks_pop_tok ran q c q' t :
+  Permutation q (c :: q') -> tok_of (dc_act c) = t -> not_timeout_tok t = true ->
+  Permutation ((ran ++ [t]) ++ qtoks q') (ran ++ qtoks q).
+Proof.
+  intros H <- E. apply qtoks_perm in H. rewrite qtoks_cons, E in H. rewrite <- app_assoc.
+  apply Permutation_app_head. symmetry. exact H.
+Qed.
+
+Lemma qtoks_app q q' : qtoks (q ++ q') = qtoks q ++ qtoks q'.
+Proof. unfold qtoks. rewrite map_app, filter_app. reflexivity. Qed.
+
+(* cancelling the timeout call does not change the tokens of the function's calls *)
+Lemma qtoks_remove_timeout s0 q :
+  Forall (fun c => Nat.eqb (dc_seq c) s0 = is_timeout (dc_act c)) q -> qtoks (remove_seq s0 q) = qtoks q.
+Proof.
+  induction 1 as [|c r Hc Hr IH]; [reflexivity|]. rewrite remove_seq_cons.
+  destruct (dc_seq c =? s0) eqn:E; cbn [negb].
+  - rewrite IH. unfold qtoks. simpl. destruct (dc_act c); try discriminate. reflexivity.
+  - unfold qtoks in *. simpl. rewrite IH. reflexivity.
+Qed.
+
+Lemma Forall_remove_seq {A} (P : dcall A -> Prop) s q : Forall P q -> Forall P (remove_seq s q).
+Proof.
+  intros H. apply Forall_forall. intros c Hc. apply remove_seq_in in Hc as [Hc _].
+  eapply Forall_forall in H; eauto.
+Qed.
+
+Lemma nodup_seq_inj {A} (q : list (dcall A)) c c' :
+  NoDup (map dc_seq q) -> In c q -> In c' q -> dc_seq c = dc_seq c' -> c = c'.
+Proof.
+  induction q as [|x r IH]; [intros _ []|]. simpl. intros H Hc Hc' E. inversion H as [|? ? Hn Hr]; subst.
+  destruct Hc as [->|Hc], Hc' as [->|Hc']; auto.
+  - exfalso. apply Hn. rewrite E. apply in_map. exact Hc'.
+  - exfalso. apply Hn. rewrite <- E. apply in_map. exact Hc.
+Qed.
+
+Record LI (s0 : nat) (w : world) : Prop := {
+  li_running : running (w_r w) = true;
+  li_spinning : sp_spinning (w_sp w) = true;
+  li_stop : w_stop w = SFake;
+  li_tc : sp_timeout_call (w_sp w) = Some s0;
+  li_succ : sp_success (w_sp w) = None;
+  li_fail : sp_failure (w_sp w) = None;
+  li_nodup : NoDup (map dc_seq (queue (w_r w)));
+  li_seq : Forall (fun c => Nat.eqb (dc_seq c) s0 = is_timeout (dc_act c)) (queue (w_r w));
+  li_tok : Forall (fun c => is_timeout (dc_act c) = true \/ not_timeout_tok (tok_of (dc_act c)) = true)
+                  (queue (w_r w));
+  li_crasher : exists c, In c (queue (w_r w)) /\ crasher (dc_act c) = true
+}.
+
+(* what the loop leaves untouched *)
+Definition same_env (w w' : world) : Prop :=
+  w_sig w' = w_sig w /\ w_flag w' = w_flag w /\ w_stop w' = w_stop w /\ w_reentry w' = w_reentry w
+  /\ sp_junk (w_sp w') = sp_junk (w_sp w) /\ sp_saved (w_sp w') = sp_saved (w_sp w)
+  /\ readers (w_r w') = readers (w_r w) /\ hooks (w_r w') = hooks (w_r w)
+  /\ really_stopped (w_r w') = really_stopped (w_r w).
+
+Record LoopEnd (w w' : world) (c : dcall action) : Prop := {
+  le_stopped : running (w_r w') = false;
+  le_in : In c (queue (w_r w));
+  le_crasher : crasher (dc_act c) = true;
+  le_first : forall c', In c' (queue (w_r w)) -> crasher (dc_act c') = true -> dc_time c <= dc_time c';
+  le_result : get_result (w_sp w') = act_result (dc_act c);
+  le_perm : Permutation (w_ran w' ++ qtoks (queue (w_r w'))) (w_ran w ++ qtoks (queue (w_r w)));
+  le_env : same_env w w'
+}.
+
+Lemma loop_not_running fuel w :
+  running (w_r w) = false -> loop w_r set_r exec_call fuel w = (LDone, w).
+Proof. intros H. destruct fuel; simpl; rewrite H; reflexivity. Qed.
+
+Lemma loop_spec s0 : forall fuel w, LI s0 w -> length (queue (w_r w)) <= fuel ->
+  exists w' c, loop w_r set_r exec_call fuel w = (LDone, w') /\ LoopEnd w w' c.
+Proof.
+  induction fuel as [|f IH]; intros w L Hlen.
+  - destruct (li_crasher _ _ L) as [c [Hc _]]. destruct (queue (w_r w)); [destruct Hc|simpl in Hlen; lia].
+  - destruct (li_crasher _ _ L) as [c0 [Hc0 Hcr0]].
+    assert (Hq : queue (w_r w) <> []) by (intro E; rewrite E in Hc0; destruct Hc0).
+    destruct (pop_next_some (w_r w) Hq) as [c [r' Hpop]].
+    destruct (pop_next_spec _ _ _ Hpop) as (Hin & Hmin & Hq' & Hrun & Hrd & Hhk & Hrs & _).
+    cbn [loop]. rewrite (li_running _ _ L). cbn [negb]. rewrite Hpop.
+    pose proof (remove_seq_perm _ _ (li_nodup _ _ L) Hin) as Hperm.
+    pose proof (remove_seq_length_lt _ _ Hin) as Hlt.
+    destruct L as [Lrun Lspin Lstop Ltc Lsucc Lfail Lnd Lseq Ltok _].
+    destruct w as [r st sg fl sp ran re]. destruct sp as [su fa jk spin tc sv].
+    cbn [w_r w_stop w_sp w_sig w_flag w_ran w_reentry sp_success sp_failure sp_junk sp_spinning
+         sp_timeout_call sp_saved] in *.
+    subst st spin tc su fa.
+    assert (Htokc : is_timeout (dc_act c) = true \/ not_timeout_tok (tok_of (dc_act c)) = true).
+    { eapply Forall_forall in Ltok; eauto. }
+    assert (Hseqc : Nat.eqb (dc_seq c) s0 = is_timeout (dc_act c)).
+    { eapply Forall_forall in Lseq; eauto. }
+    unfold exec_call. destruct (dc_act c) as [|o|  |t|T' f'] eqn:Eact.
+    + (* the timeout call *)
+      eexists. exists c. split.
+      * apply loop_not_running.
+        unfold timed_out, stop_reactor, set_r, set_sp. cbn. reflexivity.
+      * unfold timed_out, stop_reactor, set_r, set_sp. cbn.
+        constructor; cbn; auto.
+        -- rewrite Eact; reflexivity.
+        -- rewrite Eact; reflexivity.
+        -- rewrite Hq'. apply Permutation_app_head.
+           eapply qtoks_pop_zero; [exact Hperm|]. rewrite Eact. reflexivity.
+        -- unfold same_env; cbn. repeat split; auto.
+    + (* the function's Deferred fires *)
+      eexists. exists c. split.
+      * apply loop_not_running.
+        unfold stop_reactor, got, cancel_timeout, log_ran, set_r, set_sp, set_ran. cbn.
+        destruct o; cbn; reflexivity.
+      * unfold stop_reactor, got, cancel_timeout, log_ran, set_r, set_sp, set_ran. cbn.
+        destruct o as [v|e]; cbn.
+        -- constructor; cbn; auto.
+           ++ rewrite Eact; reflexivity.
+           ++ rewrite Eact; reflexivity.
+           ++ rewrite Hq'. rewrite qtoks_remove_timeout by (apply Forall_remove_seq; exact Lseq).
+              eapply qtoks_pop_tok; [exact Hperm|rewrite Eact; reflexivity|reflexivity].
+           ++ unfold same_env; cbn. repeat split; auto.
+        -- constructor; cbn; auto.
+           ++ rewrite Eact; reflexivity.
+           ++ rewrite Eact; reflexivity.
+           ++ rewrite Hq'. rewrite qtoks_remove_timeout by (apply Forall_remove_seq; exact Lseq).
+              eapply qtoks_pop_tok; [exact Hperm|rewrite Eact; reflexivity|reflexivity].
+           ++ unfold same_env; cbn. repeat split; auto.
+    + (* a stop request *)
+      eexists. exists c. split.
+      * apply loop_not_running. unfold reactor_stop, log_ran, set_r, set_ran. cbn. reflexivity.
+      * unfold reactor_stop, log_ran, set_r, set_ran. cbn.
+        constructor; cbn; auto.
+        -- rewrite Eact; reflexivity.
+        -- rewrite Eact; reflexivity.
+        -- rewrite Hq'. eapply qtoks_pop_tok; [exact Hperm|rewrite Eact; reflexivity|reflexivity].
+        -- unfold same_env; cbn. repeat split; auto.
+    + (* one of the function's idle calls: the loop goes on *)
+      assert (Ht : not_timeout_tok t = true) by (destruct Htokc as [H|H]; [discriminate|exact H]).
+      set (w1 := log_ran t (set_r r' (mkW r SFake sg fl (mkSp None None jk true (Some s0) sv) ran re))).
+      assert (L1 : LI s0 w1).
+      { unfold w1, log_ran, set_r, set_ran. constructor; cbn.
+        - congruence.
+        - reflexivity.
+        - reflexivity.
+        - reflexivity.
+        - reflexivity.
+        - reflexivity.
+        - rewrite Hq'. apply remove_seq_nodup. exact Lnd.
+        - rewrite Hq'. apply Forall_remove_seq. exact Lseq.
+        - rewrite Hq'. apply Forall_remove_seq. exact Ltok.
+        - exists c0. split; [|exact Hcr0]. rewrite Hq'. apply remove_seq_keeps; [exact Hc0|].
+          intro E. assert (c0 = c) by (eapply nodup_seq_inj; eauto). subst c0.
+          rewrite Eact in Hcr0. discriminate. }
+      assert (Hlen1 : length (queue (w_r w1)) <= f).
+      { unfold w1, log_ran, set_r, set_ran. cbn. rewrite Hq'. lia. }
+      destruct (IH w1 L1 Hlen1) as [w' [c' [Hloop E]]].
+      exists w', c'. split; [exact Hloop|].
+      destruct E as [E1 E2 E3 E4 E5 E6 E7].
+      unfold w1, log_ran, set_r, set_ran in E2, E4, E6, E7. cbn in E2, E4, E6, E7. rewrite Hq' in *.
+      constructor; cbn; auto.
+      * apply remove_seq_in in E2 as [E2 _]. exact E2.
+      * intros c'' Hc'' Hcr''. apply E4; [|exact Hcr''].
+        apply remove_seq_keeps; [exact Hc''|]. intro E.
+        assert (c'' = c) by (eapply nodup_seq_inj; eauto). subst c''. rewrite Eact in Hcr''. discriminate.
+      * rewrite E6. eapply qtoks_pop_tok; [exact Hperm|rewrite Eact; reflexivity|exact Ht].
+      * unfold same_env in *. cbn in *. rewrite Hrd, Hhk, Hrs in E7. exact E7.
+    + (* the startup hook is never a delayed call *)
+      destruct Htokc as [H|H]; discriminate.
+Qed.
+
+(* ------------------------------------------------------------------ *)
+(* Part 3: one run on an idle reactor                                   *)
+(* ------------------------------------------------------------------ *)
+Lemma spinner_iterations_0 : spinner_iterations = 0.
+Proof. reflexivity. Qed.
+
+(* what reactor.run() clobbers is among what Spinner preserves (table obligation) *)
+Lemma reactor_signals_preserved : forall s, In s reactor_signals -> In s preserved_signals.
+Proof.
+  intros s H. apply (proj1 (forallb_forall (fun s => existsb (Nat.eqb s) preserved_signals) reactor_signals)
+                           eq_refl) in H.
+  apply existsb_exists in H as [x [Hx E]]. apply Nat.eqb_eq in E. subst. exact Hx.
+Qed.
+
+Fixpoint extras_calls (n s i : nat) (ds : list time) : list (dcall action) :=
+  match ds with
+  | [] => []
+  | d :: r => mkCall (n + d) s (ANoop (tok_extra i)) :: extras_calls n (S s) (S i) r
+  end.
+
+Lemma schedule_extras_spec ds : forall i n s q hk rd rn rs orc st sg fl sp ran re,
+  schedule_extras i ds (mkW (mkReactor n s q hk rd rn rs orc) st sg fl sp ran re)
+  = mkW (mkReactor n (s + length ds) (q ++ extras_calls n s i ds) hk rd rn rs orc) st sg fl sp ran re.
+Proof.
+  induction ds as [|d r IH]; intros; cbn [schedule_extras extras_calls length].
+  - rewrite Nat.add_0_r, app_nil_r. reflexivity.
+  - unfold later, call_later, set_r. cbn. rewrite IH. rewrite <- app_assoc. cbn [app].
+    rewrite Nat.add_succ_r. reflexivity.
+Qed.
+
+Lemma add_sels_spec k : forall j n s q hk rd rn rs orc st sg fl sp ran re,
+  add_sels j k (mkW (mkReactor n s q hk rd rn rs orc) st sg fl sp ran re)
+  = mkW (mkReactor n s q hk (rd ++ map tok_sel (seq j k)) rn rs orc) st sg fl sp ran re.
+Proof.
+  induction k as [|k IH]; intros; cbn [add_sels seq map].
+  - rewrite app_nil_r. reflexivity.
+  - unfold add_reader, set_readers, set_r. cbn. rewrite IH. rewrite <- app_assoc. reflexivity.
+Qed.
+
+Lemma extras_seqs ds : forall n s i, map dc_seq (extras_calls n s i ds) = seq s (length ds).
+Proof. induction ds as [|d r IH]; intros; simpl; [reflexivity|]. rewrite IH. reflexivity. Qed.
+
+Lemma extras_acts ds : forall n s i c, In c (extras_calls n s i ds) -> exists j, dc_act c = ANoop (tok_extra j).
+Proof.
+  induction ds as [|d r IH]; intros n s i c H; [destruct H|]. destruct H as [<-|H]; [eexists; reflexivity|].
+  eapply IH; eauto.
+Qed.
+
+Lemma qtoks_extras ds : forall n s i, qtoks (extras_calls n s i ds) = map tok_extra (seq i (length ds)).
+Proof.
+  induction ds as [|d r IH]; intros; [reflexivity|]. cbn [extras_calls length seq map].
+  rewrite qtoks_cons. cbn [dc_act tok_of]. rewrite IH. reflexivity.
+Qed.
+
+(* the function's own part of run_function, before what it returns is looked at *)
+Definition fn_prefix (inner : world -> res value exc * world) (f : fn) (w : world) : world :=
+  let w := schedule_extras 0 (f_extras f) w in
+  let w := add_sels 0 (f_sels f) w in
+  let w := match f_stop f with Some s => later s AStopReq w | None => w end in
+  let w := match f_setsig f with Some (s, h) => set_sig (setsig s h (w_sig w)) w | None => w end in
+  let w := if f_reenter f
+           then let '(r, w') := inner w in set_reentry (Some (is_reentry r)) w'
+           else w in
+  if f_stop_now f then reactor_stop w else w.
+
+Lemma run_function_eq inner f w :
+  run_function inner f w =
+  match f_shape f with
+  | Sync _ o => stop_reactor (got o (fn_prefix inner f w))
+  | Later t o => later t (AFire o) (fn_prefix inner f w)
+  | Never => fn_prefix inner f w
+  end.
+Proof. reflexivity. Qed.
+
+(* C15_reentry at the level of the model's functions *)
+Lemma guarded_refuses body w : w_flag w = true -> guarded body w = (Raised EReentry, w).
+Proof. intros H. unfold guarded. rewrite H. reflexivity. Qed.
+
+Definition stop_calls (n s : nat) (f : fn) : list (dcall action) :=
+  match f_stop f with Some d => [mkCall (n + d) s AStopReq] | None => [] end.
+Definition sig_after_fn (f : fn) (sg : sigtab) : sigtab :=
+  match f_setsig f with Some (s, h) => setsig s h sg | None => sg end.
+
+Lemma fn_prefix_spec iters f n s q orc sg sp ran re :
+  fn_prefix (inner_run iters) f (mkW (mkReactor n s q [] [] true false orc) SFake sg true sp ran re)
+  = mkW (mkReactor n (s + length (f_extras f) + length (stop_calls n (s + length (f_extras f)) f))
+                   (q ++ extras_calls n s 0 (f_extras f) ++ stop_calls n (s + length (f_extras f)) f)
+                   [] (map tok_sel (seq 0 (f_sels f))) (negb (f_stop_now f)) false orc)
+        SFake (sig_after_fn f sg) true sp ran (if f_reenter f then Some true else re).
+Proof.
+  unfold fn_prefix. rewrite schedule_extras_spec, add_sels_spec. cbn [app].
+  unfold stop_calls, sig_after_fn.
+  destruct (f_stop f) as [d|]; destruct (f_setsig f) as [[a h]|]; destruct (f_reenter f); destruct (f_stop_now f);
+    unfold later, call_later, set_r, set_sig, set_reentry, reactor_stop, inner_run;
+    cbn; rewrite ?guarded_refuses by reflexivity; cbn;
+    rewrite <- ?app_assoc, ?app_nil_r, ?Nat.add_0_r, ?Nat.add_1_r; reflexivity.
+Qed.
+
+Definition fire_calls (n s : nat) (f : fn) : list (dcall action) :=
+  match f_shape f with Later t o => [mkCall (n + t) s (AFire o)] | _ => [] end.
+
+(* everything in the reactor's queue once the function has returned (nothing cancelled yet) *)
+Definition Q0 (n s : nat) (T : time) (f : fn) : list (dcall action) :=
+  let s1 := S s + length (f_extras f) in
+  mkCall (n + T) s ATimeout
+  :: extras_calls n (S s) 0 (f_extras f)
+  ++ stop_calls n s1 f
+  ++ fire_calls n (s1 + length (stop_calls n s1 f)) f.
+
+Local Arguments Q0 : simpl never.
+
+Lemma Q0_length n s T f : length (Q0 n s T f) <= length (f_extras f) + 3.
+Proof.
+  unfold Q0, stop_calls, fire_calls. cbn [length]. rewrite !app_length.
+  assert (length (extras_calls n (S s) 0 (f_extras f)) = length (f_extras f)) as ->.
+  { rewrite <- (map_length dc_seq), extras_seqs, seq_length. reflexivity. }
+  destruct (f_stop f), (f_shape f); simpl; lia.
+Qed.
+
+Lemma Q0_seqs n s T f : map dc_seq (Q0 n s T f) = seq s (length (Q0 n s T f)).
+Proof.
+  unfold Q0. cbn [map dc_seq length seq]. f_equal.
+  rewrite !map_app, !app_length, extras_seqs.
+  assert (length (extras_calls n (S s) 0 (f_extras f)) = length (f_extras f)) as ->.
+  { rewrite <- (map_length dc_seq), extras_seqs, seq_length. reflexivity. }
+  rewrite seq_app. f_equal. rewrite seq_app. unfold stop_calls, fire_calls.
+  destruct (f_stop f), (f_shape f); simpl; rewrite ?Nat.add_0_r, ?Nat.add_1_r; reflexivity.
+Qed.
+
+Lemma Q0_nodup n s T f : NoDup (map dc_seq (Q0 n s T f)).
+Proof. rewrite Q0_seqs. apply seq_NoDup. Qed.
+
+Lemma Q0_tail_seq n s T f c :
+  In c (tl (Q0 n s T f)) -> s < dc_seq c /\ is_timeout (dc_act c) = false
+                            /\ not_timeout_tok (tok_of (dc_act c)) = true.
+Proof.
+  intros H. split.
+  - assert (In (dc_seq c) (tl (map dc_seq (Q0 n s T f)))) as Hs.
+    { unfold Q0 in *. cbn [map tl] in *. apply in_map. exact H. }
+    rewrite Q0_seqs in Hs. unfold Q0 in Hs. cbn [length seq tl] in Hs. apply in_seq in Hs. lia.
+  - unfold Q0 in H. cbn [tl] in H. apply in_app_or in H as [H|H].
+    + apply extras_acts in H as [j ->]. split; reflexivity.
+    + apply in_app_or in H as [H|H].
+      * unfold stop_calls in H. destruct (f_stop f); [|destruct H]. destruct H as [<-|[]]. split; reflexivity.
+      * unfold fire_calls in H. destruct (f_shape f) as [? ?|t o|]; [destruct H| |destruct H].
+        destruct H as [<-|[]]. split; reflexivity.
+Qed.
+
+Lemma Q0_seq_inv n s T f :
+  Forall (fun c => Nat.eqb (dc_seq c) s = is_timeout (dc_act c)) (Q0 n s T f).
+Proof.
+  apply Forall_forall. intros c H. change (Q0 n s T f) with (mkCall (n + T) s ATimeout :: tl (Q0 n s T f)) in H.
+  destruct H as [<-|H]; [simpl; apply Nat.eqb_refl|].
+  apply Q0_tail_seq in H as (H1 & H2 & _). rewrite H2. apply Nat.eqb_neq. lia.
+Qed.
+
+Lemma Q0_tok_inv n s T f :
+  Forall (fun c => is_timeout (dc_act c) = true \/ not_timeout_tok (tok_of (dc_act c)) = true) (Q0 n s T f).
+Proof.
+  apply Forall_forall. intros c H. change (Q0 n s T f) with (mkCall (n + T) s ATimeout :: tl (Q0 n s T f)) in H.
+  destruct H as [<-|H]; [left; reflexivity|]. apply Q0_tail_seq in H as (_ & _ & H). right; exact H.
+Qed.
+
+Lemma Q0_toks n s T f :
+  qtoks (Q0 n s T f) ++ map tok_sel (seq 0 (f_sels f)) = sched_tokens f.
+Proof.
+  unfold Q0, sched_tokens. rewrite qtoks_cons. cbn [dc_act tok_of not_timeout_tok tok_timeout Nat.eqb negb].
+  rewrite !qtoks_app, qtoks_extras, <- !app_assoc. f_equal. f_equal.
+  - unfold stop_calls. destruct (f_stop f); reflexivity.
+  - f_equal. unfold fire_calls. destruct (f_shape f); reflexivity.
+Qed.
+
+(* the crashing calls in the queue are exactly the events the statement speaks of *)
+Lemma crasher_event n s T f c :
+  In c (Q0 n s T f) -> crasher (dc_act c) = true ->
+  exists t, dc_time c = n + t /\ In (t, act_result (dc_act c)) (events T f).
+Proof.
+  unfold Q0, events. intros [<-|H] Hc.
+  - exists T. split; [reflexivity|]. left; reflexivity.
+  - apply in_app_or in H as [H|H].
+    + apply extras_acts in H as [j E]. rewrite E in Hc. discriminate.
+    + apply in_app_or in H as [H|H].
+      * unfold stop_calls in H. destruct (f_stop f) as [d|]; [|destruct H]. destruct H as [<-|[]].
+        exists d. split; [reflexivity|]. right. apply in_or_app. right. left; reflexivity.
+      * unfold fire_calls in H. destruct (f_shape f) as [? ?| t o |]; [destruct H| |destruct H].
+        destruct H as [<-|[]].
+        exists t. split; [reflexivity|]. right. apply in_or_app. left. left; reflexivity.
+Qed.
+
+Lemma event_crasher n s T f ev :
+  In ev (events T f) -> exists c, In c (Q0 n s T f) /\ crasher (dc_act c) = true /\ dc_time c = n + fst ev.
+Proof.
+  unfold Q0, events. intros [<-|H].
+  - eexists. split; [left; reflexivity|]. split; reflexivity.
+  - apply in_app_or in H as [H|H].
+    + destruct (f_shape f) as [? ?| t o |] eqn:E; [destruct H| |destruct H]. destruct H as [<-|[]].
+      eexists. split; [right; apply in_or_app; right; apply in_or_app; right; unfold fire_calls; rewrite E;
+                       left; reflexivity|]. split; reflexivity.
+    + destruct (f_stop f) as [d|] eqn:E; [|destruct H]. destruct H as [<-|[]].
+      eexists. split; [right; apply in_or_app; right; apply in_or_app; left; unfold stop_calls; rewrite E;
+                       left; reflexivity|]. split; reflexivity.
+Qed.
+
+(* the world in which the startup hook runs the function *)
+Definition wB (n s : nat) (T : time) (orc : list nat) (sg saved : sigtab) (ran : list nat) (re : option bool) : world :=
+  mkW (mkReactor n (S s) [mkCall (n + T) s ATimeout] [] [] true false orc) SFake sg true
+      (mkSp None None [] true (Some s) saved) ran re.
+
+Record AfterLoop (T : time) (f : fn) (n s : nat) (sg saved : sigtab) (ran : list nat) (re : option bool)
+       (wL : world) : Prop := {
+  al_stopped : running (w_r wL) = false;
+  al_allowed : Allowed T f (get_result (w_sp wL));
+  al_perm : Permutation (w_ran wL ++ qtoks (queue (w_r wL))) (ran ++ qtoks (Q0 n s T f));
+  al_sig : w_sig wL = sig_after_fn f sg;
+  al_flag : w_flag wL = true;
+  al_stop : w_stop wL = SFake;
+  al_reentry : w_reentry wL = (if f_reenter f then Some true else re);
+  al_junk : sp_junk (w_sp wL) = [];
+  al_saved : sp_saved (w_sp wL) = saved;
+  al_readers : readers (w_r wL) = map tok_sel (seq 0 (f_sels f));
+  al_hooks : hooks (w_r wL) = [];
+  al_rs : really_stopped (w_r wL) = false
+}.
+
+Lemma async_world iters T f n s orc sg saved ran re :
+  (forall h o, f_shape f <> Sync h o) ->
+  exists s3,
+    run_function (inner_run iters) f (wB n s T orc sg saved ran re)
+    = mkW (mkReactor n s3 (Q0 n s T f) [] (map tok_sel (seq 0 (f_sels f))) (negb (f_stop_now f)) false orc)
+          SFake (sig_after_fn f sg) true (mkSp None None [] true (Some s) saved) ran
+          (if f_reenter f then Some true else re).
+Proof.
+  intros Hsh. rewrite run_function_eq. unfold wB. rewrite fn_prefix_spec. unfold Q0, fire_calls.
+  destruct (f_shape f) as [h o|t o|].
+  - exfalso. eapply Hsh; reflexivity.
+  - eexists. unfold later, call_later, set_r. cbn. rewrite <- !app_assoc. reflexivity.
+  - eexists. rewrite app_nil_r. reflexivity.
+Qed.
+
+Lemma hook_and_loop T f n s orc sg saved ran re fuel :
+  length (f_extras f) + 3 <= fuel ->
+  exists wL,
+    loop w_r set_r exec_call fuel
+         (run_function (inner_run spinner_iterations) f (wB n s T orc sg saved ran re)) = (LDone, wL)
+    /\ AfterLoop T f n s sg saved ran re wL.
+Proof.
+  intros Hfuel. destruct (f_shape f) as [h o|t o|] eqn:Esh.
+  - (* a synchronous result: the callbacks crash the reactor from the startup hook *)
+    rewrite run_function_eq, Esh. unfold wB. rewrite fn_prefix_spec.
+    assert (EQ : [mkCall (n + T) s ATimeout] ++ extras_calls n (S s) 0 (f_extras f)
+                 ++ stop_calls n (S s + length (f_extras f)) f = Q0 n s T f).
+    { unfold Q0, fire_calls. rewrite Esh, app_nil_r. reflexivity. }
+    rewrite EQ.
+    eexists. split.
+    + apply loop_not_running. unfold stop_reactor, got, cancel_timeout, set_r, set_sp. cbn.
+      destruct o; cbn; reflexivity.
+    + unfold stop_reactor, got, cancel_timeout, set_r, set_sp. cbn.
+      destruct o as [v|e]; cbn; (constructor; cbn; auto;
+        [unfold Allowed; rewrite Esh; reflexivity
+        |rewrite qtoks_remove_timeout by apply Q0_seq_inv; reflexivity]).
+  - (* a Deferred *)
+    destruct (async_world spinner_iterations T f n s orc sg saved ran re) as [s3 ->];
+      [intros; rewrite Esh; discriminate|].
+    destruct (f_stop_now f) eqn:Enow; cbn [negb].
+    + eexists. split; [apply loop_not_running; reflexivity|].
+      constructor; cbn; auto. unfold Allowed. rewrite Esh, Enow. reflexivity.
+    + match goal with |- exists wL, loop _ _ _ _ ?w = _ /\ _ => set (wF := w) end.
+      assert (L : LI s wF).
+      { unfold wF. constructor; cbn; auto.
+        - apply Q0_nodup.
+        - apply Q0_seq_inv.
+        - apply Q0_tok_inv.
+        - exists (mkCall (n + T) s ATimeout). split; [left; reflexivity|reflexivity]. }
+      destruct (loop_spec s fuel wF L) as [wL [c [Hloop E]]].
+      { unfold wF; cbn. pose proof (Q0_length n s T f). lia. }
+      exists wL. split; [exact Hloop|].
+      destruct E as [E1 E2 E3 E4 E5 E6 E7]. unfold wF in *. cbn in E2, E4, E6, E7.
+      destruct E7 as (F1 & F2 & F3 & F4 & F5 & F6 & F7 & F8 & F9). cbn in *.
+      constructor; auto.
+      rewrite E5. unfold Allowed. rewrite Esh, Enow.
+      destruct (crasher_event _ _ _ _ _ E2 E3) as [tc [Htc Hev]].
+      exists tc. split; [exact Hev|]. intros ev Hin.
+      destruct (event_crasher n s T f ev Hin) as [c' [Hc' [Hcr' Ht']]].
+      specialize (E4 c' Hc' Hcr'). lia.
+  - destruct (async_world spinner_iterations T f n s orc sg saved ran re) as [s3 ->];
+      [intros; rewrite Esh; discriminate|].
+    destruct (f_stop_now f) eqn:Enow; cbn [negb].
+    + eexists. split; [apply loop_not_running; reflexivity|].
+      constructor; cbn; auto. unfold Allowed. rewrite Esh, Enow. reflexivity.
+    + match goal with |- exists wL, loop _ _ _ _ ?w = _ /\ _ => set (wF := w) end.
+      assert (L : LI s wF).
+      { unfold wF. constructor; cbn; auto.
+        - apply Q0_nodup.
+        - apply Q0_seq_inv.
+        - apply Q0_tok_inv.
+        - exists (mkCall (n + T) s ATimeout). split; [left; reflexivity|reflexivity]. }
+      destruct (loop_spec s fuel wF L) as [wL [c [Hloop E]]].
+      { unfold wF; cbn. pose proof (Q0_length n s T f). lia. }
+      exists wL. split; [exact Hloop|].
+      destruct E as [E1 E2 E3 E4 E5 E6 E7]. unfold wF in *. cbn in E2, E4, E6, E7.
+      destruct E7 as (F1 & F2 & F3 & F4 & F5 & F6 & F7 & F8 & F9). cbn in *.
+      constructor; auto.
+      rewrite E5. unfold Allowed. rewrite Esh, Enow.
+      destruct (crasher_event _ _ _ _ _ E2 E3) as [tc [Htc Hev]].
+      exists tc. split; [exact Hev|]. intros ev Hin.
+      destruct (event_crasher n s T f ev Hin) as [c' [Hc' [Hcr' Ht']]].
+      specialize (E4 c' Hc' Hcr'). lia.
+Qed.
